@@ -84,6 +84,8 @@ def gen_cases(ctx, n):
         [[C, -1, -1], [X, 0, 0], [G.MUL, 0, 1], [C, -1, -1], [G.MUL, 2, 3], [G.ADD, 4, 0]],
         [[C, -1, -1], [I, 2, 2], [G.MUL, 0, 1], [X, 0, 0], [G.ADD, 2, 3], [G.SIN, 4, 4], [C, -1, -1], [G.MUL, 5, 6]],
         [[X, 0, 0], [C, -1, -1], [G.POW, 0, 1], [C, -1, -1], [G.POW, 2, 3]],
+        [[C, -1, -1], [X, 0, 0], [X, 1, 1], [G.SIN, 0, 0], [G.MUL, 3, 1], [G.MUL, 0, 2], [G.ADD, 4, 5], [C, -1, -1], [G.ADD, 6, 7]],   # sin(c0)*x0 + c0*x1 + c1
+        [[C, -1, -1], [X, 0, 0], [X, 1, 1], [G.MUL, 0, 0], [G.MUL, 3, 1], [G.MUL, 0, 2], [G.ADD, 4, 5], [C, -1, -1], [G.MUL, 6, 7]],   # (c0^2*x0 + c0*x1)*c1
         [[X, 0, 0], [I, 2, 2], [G.POW, 0, 1], [C, -1, -1], [G.POW, 2, 3]],     # (x^2)^c   (F19)
         [[X, 0, 0], [C, -1, -1], [G.POW, 0, 1], [I, 3, 3], [G.POW, 2, 3]],     # (x^c)^3
         [[X, 0, 0], [X, 1, 1], [G.MUL, 0, 1], [I, 2, 2], [G.POW, 2, 3], [C, -1, -1], [G.POW, 4, 5]],   # ((xy)^2)^c
@@ -202,6 +204,7 @@ def run(ctx, rep):
         # ---------- oracle (b): CAS
         changed = cas_oracle(ctx, rep, st, D, case)
         cas_constants_oracle(ctx, rep, st, D, case)
+        cas_folding_oracle(ctx, rep, st, D, case)
         rep.case(st, nontrivial or changed)
         rep.sample({"stack": G.describe(st), "reduced": None if r is None else G.describe(r)})
     # malformed stream for util / reduce
@@ -407,8 +410,82 @@ def cas_constants_oracle(ctx, rep, st, D, case):
             rep.count("cas_const_point", "agree")
         else:
             rep.violate("CAS: " + bad, "C03:F3b-int64-wrap" if (ovf or port_says_overflow(ctx, st)) else "C03:cas-value",
-                        {**case, "x": x, "constants_by_row": dict(cvals)})
+                        {**case, "x": x, "constants_by_row": {str(int(k)): float(v) for k, v in cvals.items()}})
             break
+
+
+def cas_folding_oracle(ctx, rep, st, D, case):
+    """constant folding must not lose expressiveness: for generic values of the constants of the expression before
+    `fold_constants` there must be values of the (fewer) constants after it that reproduce it.  The search for those values is
+    only trusted where it is EXACT: when the folded expression is affine in its constants (checked numerically) the witness is
+    a linear least-squares problem, and a positive residual on the sample points proves that no witness exists."""
+    if sum(1 for r in st if r[0] == G.CONSTANT) < 2:
+        return
+    from bingo.symbolic_regression.agraph.simplification_backend.interpreter import build_cas_expression
+    from bingo.symbolic_regression.agraph.simplification_backend.automatic_simplification import automatic_simplify
+    from bingo.symbolic_regression.agraph.simplification_backend.constant_folding import fold_constants, _get_constants
+    from harness.mpeval import mp_eval_expr
+    rng = ctx.rng
+    try:
+        with watchdog(5.0):
+            e1 = automatic_simplify(build_cas_expression(np.array(st, dtype=int).reshape(-1, 3)))
+            ids1 = sorted(_get_constants(e1))
+            e2 = fold_constants(e1.copy() if hasattr(e1, "copy") else e1)
+            ids2 = sorted(_get_constants(e2))
+    except Timeout:
+        return
+    except Exception:
+        return
+    if not ids2 or len(ids2) > 4 or expr_has_power(e1) or int_overflow(st):
+        return
+    cv = {i: G.nice_value(rng) * 1.0371 for i in ids1}
+    npts = 2 * len(ids2) + 6
+    xs = [[G.nice_value(rng) for _ in range(D)] for _ in range(npts)]
+
+    def f2(x, vals):
+        return mp_eval_expr(e2, x, lambda i: vals[ids2.index(i)])
+    try:
+        target = [mp_eval_expr(e1, x, lambda i: cv[i]) for x in xs]
+        zero = [0.0] * len(ids2)
+        base = [f2(x, zero) for x in xs]
+        cols = []
+        for k in range(len(ids2)):
+            unit = [1.0 if j == k else 0.0 for j in range(len(ids2))]
+            cols.append([f2(x, unit) for x in xs])
+        probe = [rng.uniform(-2, 2) for _ in ids2]
+        lin = [f2(x, probe) for x in xs]
+    except Exception:
+        rep.count("cas_folding", "skipped (evaluation)")
+        return
+    vals_all = target + base + lin + [v for c in cols for v in c]
+    if any(v is UNDEF for v in vals_all):
+        rep.count("cas_folding", "skipped (undefined point)")
+        return
+    # affine in the constants?  f(probe) = f(0) + sum probe_k (f(e_k) - f(0))
+    for r in range(npts):
+        pred = base[r] + sum(mpmath.mpf(probe[k]) * (cols[k][r] - base[r]) for k in range(len(ids2)))
+        if abs(pred - lin[r]) > mpmath.mpf("1e-40") * max(1, abs(lin[r])):
+            rep.count("cas_folding", "not affine in the folded constants (inconclusive)")
+            return
+    A = mpmath.matrix(npts, len(ids2))
+    b = mpmath.matrix(npts, 1)
+    for r in range(npts):
+        for k in range(len(ids2)):
+            A[r, k] = cols[k][r] - base[r]
+        b[r] = target[r] - base[r]
+    try:
+        sol = mpmath.lu_solve(A, b)          # least squares for over-determined systems
+        resid = max(abs(v) for v in (A * sol - b))
+    except Exception:
+        rep.count("cas_folding", "skipped (singular)")
+        return
+    scale = max([1] + [abs(v) for v in target])
+    if resid > mpmath.mpf("1e-30") * scale:
+        rep.violate(f"constant folding lost expressiveness: no values of the {len(ids2)} folded constants reproduce the expression with "
+                    f"{len(ids1)} generic constants on {npts} points (least-squares residual {mpmath.nstr(resid, 5)}; the folded expression is "
+                    f"affine in its constants, so the search is exact)", "C03:cas-value", {**case, "constants_by_row": {str(int(k)): float(v) for k, v in cv.items()}})
+    else:
+        rep.count("cas_folding", "witness found (affine case)")
 
 
 def cas_correspondence(ctx, rep, cases):
